@@ -67,7 +67,18 @@ class Bag:
     xs: Any = field(default_factory=list)
 
     def __iter__(self):
+        # fault injection: when armed, the j-th request for an iterator fails (a lazily loaded collection whose backend is down)
+        FLAKY["calls"] += 1
+        if FLAKY["fail_at"] is not None and FLAKY["calls"] == FLAKY["fail_at"]:
+            raise BackendDown()
         return iter(self.xs)
+
+
+class BackendDown(Exception):
+    pass
+
+
+FLAKY = {"calls": 0, "fail_at": None, "swallowed": 0, "raised": 0}
 
 
 def plan(tier, seed):
@@ -82,7 +93,7 @@ def floors(tier):
     return {"re:cls:scale:hundreds_of_parent_element_rows:.*": 140, "cls:feature_interaction_query": 300, "distinct_nontrivial": 400, "cls:sel:elem": 500, "cls:sel:parent_elem": 500, "cls:sel:elem_parent": 300, "cls:sel:parent": 300, "cls:primitive_elements": 300, "cls:parent_is_a_query_reached_only_through_the_attribute": 150, "cls:inner_collection_is_a_symbol_instance": 200,
             "cls:cond:elem_then_parent_or": 150, "cls:cond:parent_then_pred_pair": 100, "cls:cond:elem_then_parent_notand": 150,
             "cls:cond:none": 200, "cls:cond:elem": 200, "cls:cond:parent": 200, "cls:cond:both": 200, "cls:cond:join": 200, "cls:cond:join3": 200, "cls:cond:elem_or": 200, "cls:cond:elem_stacked": 200, "cls:cond:elem_and": 200, "cls:cond:elem_not": 200,
-            "cls:scalar": 200, "cls:plain_scalar_value": 60, "cls:reevaluated_after_inner_lists_changed": 150, "cls:has_empty_list": 500, "cls:has_repeated_element": 500, "re:Flatten(@.*)?\\.enter": 2000}
+            "cls:scalar": 200, "cls:evaluated_after_an_inner_collection_failed_to_iterate": 60, "cls:plain_scalar_value": 60, "cls:reevaluated_after_inner_lists_changed": 150, "cls:has_empty_list": 500, "cls:has_repeated_element": 500, "re:Flatten(@.*)?\\.enter": 2000}
 
 
 def gen_world(rng):
@@ -370,11 +381,22 @@ def _prim_lower(n):
     return 99 if n > 5 else PRIMS[max(n, 1) - 1]
 
 
-def run(case, es, ps, caching, times=1):
+def run(case, es, ps, caching, times=1, aborted_first=None):
     from entity_query_language.cache_data import enable_caching, disable_caching
     (enable_caching if caching else disable_caching)()
     try:
         q, enc_rows = build_query(case, es, ps)
+        if aborted_first:
+            # HISTORY: the same query object evaluated once while an inner collection fails to hand out its iterator
+            FLAKY.update(calls=0, fail_at=aborted_first)
+            try:
+                enc_rows(q.evaluate())
+                if FLAKY["calls"] >= aborted_first:
+                    FLAKY["swallowed"] += 1
+            except BackendDown:
+                FLAKY["raised"] += 1
+            finally:
+                FLAKY.update(fail_at=None)
         return [enc_rows(q.evaluate()) for _ in range(times)]
     finally:
         enable_caching()
@@ -415,8 +437,15 @@ def check_case(case, ctx):
     if len({l for l in lists if l}) >= 2 and 0 < len(exp) and (len(exp) < total or case["cond"] == "none"):
         ctx.nontrivial()
     try:
-        both = run(case, es, ps, case["caching"], times=2)
+        ab = (1 + sum(len(l) for l in lists) % 3) if case.get("bag") else None
+        before = dict(FLAKY)
+        both = run(case, es, ps, case["caching"], times=2, aborted_first=ab)
         got = both[0]
+        if FLAKY["raised"] > before["raised"]:
+            ctx.cls("cls:evaluated_after_an_inner_collection_failed_to_iterate")
+        if FLAKY["swallowed"] > before["swallowed"]:
+            ctx.fail("EXCEPTION_OF_AN_INNER_COLLECTION_SWALLOWED", {"fail_at": ab})
+            return
     except Exception as e:
         import traceback
         ctx.fail("EXC", f"{type(e).__name__}: {e}\n{traceback.format_exc()[-700:]}")
